@@ -55,22 +55,40 @@ func (e codes) Is(t error) bool {
 	return ok && len(o) > 0 && len(e) > 0 && o[0] == e[0]
 }
 
+// unwinder is an aggregate of somebody else's making that exposes its
+// constituents through Unwind() []error only (the library's own interface,
+// not the standard Unwrap): slots of work that succeeded stay nil, and a slot
+// may hold an aggregate itself.
+type unwinder struct{ slots []error }
+
+func (u *unwinder) Error() string   { return fmt.Sprint("unwinder", u.slots) }
+func (u *unwinder) Unwind() []error { return u.slots }
+
+// brokenErr is a value-receiver multi-error; stored as a typed nil pointer
+// in an error its Unwrap dereferences nil - a fault in the operand that
+// strikes while the aggregate is being extended.
+type brokenErr struct{ inner []error }
+
+func (b brokenErr) Error() string   { return "broken" }
+func (b brokenErr) Unwrap() []error { return b.inner }
+
 type OddLeaf struct {
-	K  string `json:"k"` // nil | nilstack | sent | ptr | tagged | codes
+	K  string `json:"k"` // nil | nilstack | sent | ptr | tagged | codes | unwinder
 	ID int    `json:"id"`
 }
 
 type OddCase struct {
 	Left  []OddLeaf `json:"left"`
 	Right []OddLeaf `json:"right"`
-	Inner string    `json:"inner"` // join | push | collector: how each group is combined
+	Inner string    `json:"inner"` // join | push | collector | collector-fault (a faulting operand is offered in between, the caller recovers): how each group is combined
 	Outer string    `json:"outer"` // join | push | collector | wrap | panic | left-only
 }
 
 type oddLeafVal struct {
-	arg    error // what is handed to the combinator
-	target error // what errors.Is is asked for (nil: the leaf holds nothing)
-	kind   string
+	arg     error   // what is handed to the combinator
+	target  error   // what errors.Is is asked for (nil: the leaf holds nothing)
+	targets []error // unwinder: one per constituent
+	kind    string
 }
 
 func (c *OddCase) leaf(l OddLeaf, ptrs map[int]error) oddLeafVal {
@@ -87,6 +105,29 @@ func (c *OddCase) leaf(l OddLeaf, ptrs map[int]error) oddLeafVal {
 		e := errors.New(fmt.Sprint("odd-ptr#", l.ID))
 		ptrs[l.ID] = e
 		return oddLeafVal{arg: e, target: e, kind: l.K}
+	case "unwinder":
+		// slots: a pointer error, nil, a sentinel, [a nested Join of two
+		// pointer errors], nil - which of them by the bits of ID
+		a, b2 := errors.New(fmt.Sprint("uw-a#", l.ID)), sentinels[l.ID%len(sentinels)]
+		u := &unwinder{}
+		v := oddLeafVal{kind: l.K}
+		if l.ID&1 == 1 {
+			u.slots = append(u.slots, nil)
+		}
+		u.slots = append(u.slots, a)
+		v.targets = append(v.targets, a)
+		if l.ID&2 == 2 {
+			u.slots = append(u.slots, nil)
+		}
+		u.slots = append(u.slots, b2)
+		v.targets = append(v.targets, b2)
+		if l.ID&4 == 4 {
+			n1, n2 := errors.New(fmt.Sprint("uw-n1#", l.ID)), errors.New(fmt.Sprint("uw-n2#", l.ID))
+			u.slots = append(u.slots, ers.Join(n1, n2), nil)
+			v.targets = append(v.targets, n1, n2)
+		}
+		v.arg = u
+		return v
 	case "tagged":
 		return oddLeafVal{arg: tagged{id: l.ID, tags: []string{"a", "b"}}, target: tagged{id: l.ID, tags: []string{"other"}}, kind: l.K}
 	default:
@@ -106,9 +147,18 @@ func combine(how string, args []error) error {
 			}
 		}
 		return st.Resolve()
-	case "collector":
+	case "collector", "collector-fault":
 		ec := &erc.Collector{}
-		for _, a := range args {
+		for i, a := range args {
+			if how == "collector-fault" && i == len(args)/2 {
+				// an operand whose Unwrap faults while the collector
+				// is being extended; the caller recovers and goes on
+				func() {
+					defer func() { _ = recover() }()
+					var bad *brokenErr
+					ec.Add(bad)
+				}()
+			}
 			ec.Add(a)
 		}
 		return ec.Resolve()
@@ -168,6 +218,9 @@ func runOdd(t vkit.TB, c *OddCase) (nonNil, uncomparable, nilStacks int) {
 			if l.kind == "tagged" || l.kind == "codes" {
 				uncomparable++
 			}
+		case len(l.targets) > 0:
+			nonNil += len(l.targets)
+			uncomparable++ // counted with the unusual constituents
 		case l.kind == "nilstack":
 			nilStacks++
 		}
@@ -183,12 +236,11 @@ func runOdd(t vkit.TB, c *OddCase) (nonNil, uncomparable, nilStacks int) {
 		return
 	}
 	for _, l := range leaves {
-		if l.target == nil {
-			continue
-		}
-		if !errors.Is(res, l.target) {
-			failing = true
-			fail("is", "errors.Is(result, %q) is false for a constituent (%s leaf)", l.target, l.kind)
+		for _, tg := range append([]error{l.target}, l.targets...) {
+			if tg != nil && !errors.Is(res, tg) {
+				failing = true
+				fail("is", "errors.Is(result, %q) is false for a constituent (%s leaf)", tg, l.kind)
+			}
 		}
 	}
 	// absent identities
@@ -231,8 +283,8 @@ func genOddLeaves(t *rapid.T, label string) []OddLeaf {
 	out := make([]OddLeaf, n)
 	for i := range out {
 		out[i] = OddLeaf{
-			K:  rapid.SampledFrom([]string{"nil", "nilstack", "sent", "ptr", "tagged", "tagged", "codes", "codes"}).Draw(t, "kind"),
-			ID: rapid.IntRange(0, 5).Draw(t, "id"),
+			K:  rapid.SampledFrom([]string{"nil", "nilstack", "sent", "ptr", "tagged", "tagged", "codes", "codes", "unwinder", "unwinder"}).Draw(t, "kind"),
+			ID: rapid.IntRange(0, 7).Draw(t, "id"),
 		}
 	}
 	return out
@@ -249,14 +301,14 @@ func TestOddConstituents(t *testing.T) {
 	rapid.Check(t, func(t *rapid.T) {
 		c := &OddCase{
 			Left:  genOddLeaves(t, "left"),
-			Inner: rapid.SampledFrom([]string{"join", "push", "collector"}).Draw(t, "inner"),
+			Inner: rapid.SampledFrom([]string{"join", "push", "collector", "collector-fault"}).Draw(t, "inner"),
 			Outer: rapid.SampledFrom([]string{"join", "push", "collector", "wrap", "panic", "left-only"}).Draw(t, "outer"),
 		}
 		if c.Outer == "join" || c.Outer == "push" || c.Outer == "collector" {
 			c.Right = genOddLeaves(t, "right")
 		}
 		var nonNil, unc, nst int
-		vkit.Watch(tOdd, "C12:odd/terminates", 30*time.Second, func() any { return *c }, func() { nonNil, unc, nst = runOdd(t, c) })
+		vkit.Watch(tOdd, "C12:odd/terminates", 10*time.Second, func() any { return *c }, func() { nonNil, unc, nst = runOdd(t, c) })
 		classes := []string{"inner:" + c.Inner, "outer:" + c.Outer, fmt.Sprintf("uncomparable:%v", unc > 0), fmt.Sprintf("typed-nil-stack:%v", nst > 0)}
 		vkit.Case(tOdd, vkit.Hash(*c), (unc > 0 || nst > 0) && nonNil >= 2, classes, func() any { return *c })
 	})
